@@ -1281,8 +1281,11 @@ def gen_template(rng, cfg=None):
                 nb.append(("stmt", op, args, lb, modes, rb))
             items[i] = ("loop", ty, x, header, nb)
     extra = []
+    # (cfg "fragment": only statements and loop bodies hold parameters — the templates
+    # C04_script_instantiation is about)
+    frag = cfg.get("fragment", False)
     # scalar initialiser holding a parameter expression, then used as an argument
-    if rng.random() < 0.5:
+    if not frag and rng.random() < 0.5:
         vn = scope.fresh(rng)
         if rng.random() < 0.25:
             cand = [n for n in names if n not in scope.used_names and n not in KEYWORDS and not n.startswith("q")]
@@ -1295,7 +1298,7 @@ def gen_template(rng, cfg=None):
         extra.append(("stmt", rng.choice(OP_NAMES), {"pos": [("expr", ("var", vn))], "kw": []}, None,
                       [("int", str(rng.randrange(4)))], None))
     # array with bare parameters among its elements
-    if rng.random() < 0.5:
+    if not frag and rng.random() < 0.5:
         an = scope.fresh(rng)
         ty = rng.choice(["float", "complex"])
         nr, nc = rng.randrange(1, 4), rng.randrange(1, 4)
@@ -1318,7 +1321,7 @@ def gen_template(rng, cfg=None):
             extra.append(("stmt", rng.choice(OP_NAMES), {"pos": [("expr", ("var", an))], "kw": []}, None,
                           [("int", "0")], None))
     # whole-array parameter with a declared shape
-    if rng.random() < 0.35:
+    if not frag and rng.random() < 0.35:
         an = scope.fresh(rng, ["U", "V", "W", "Uni", "M2"])
         r, c = rng.randrange(1, 4), rng.randrange(1, 4)
         if rng.random() < 0.15:
